@@ -79,7 +79,7 @@ def build_overlay(case, root):
         return udiff.apply(text, lambda rel: _read(root, rel), reverse=case.get('reverse', False))
     src = _read(root, case['rel'])
     for old, new in case['edits']:
-        if src.count(old) != 1:
+        if src.count(old) < 1 or (src.count(old) != 1 and not case.get('all')):
             raise udiff.PatchError('edit anchor occurs %d times in %s: %r' % (src.count(old), case['rel'], old[:50]))
         src = src.replace(old, new)
     compile(src, case['rel'], 'exec')
